@@ -74,9 +74,8 @@ func GRPCStatusCode(err error) codes.Code {
 	if code != codes.Unknown {
 		return code
 	}
-	if code, ok := errorsToCode[err]; ok {
-		return code
-	}
+	// no direct errorsToCode[err] lookup here: err may be of a non-comparable (unhashable) type,
+	// errors.Is() below finds the exact match as well
 	for e, c := range errorsToCode {
 		if errors.Is(err, e) {
 			return c
